@@ -1,5 +1,5 @@
 """property id -> rules, explanation of what is / is not decided"""
-from rules import r_coord, r_keyid
+from rules import r_coord, r_keyid, r_opcode
 
 PROPS = {
     "C01": {
@@ -21,6 +21,17 @@ PROPS = {
         "not_decided": "name->code table vs the documentation; Windows/macOS tables (targets not installable offline); "
                        "that mapped_keys equals defsrc+deflayermap inputs (a run-time set computation); zippychord's configured "
                        "output characters are trusted to the parser's character table",
+    },
+    "C10": {
+        "rules": [r_opcode.run_all],
+        "explanation": "Decides the encoding layer of switch: (a) the opcode tag constants partition u16 (evaluated constants); "
+                       "(b) every OpCode constructor's tag and bit-fields are decoded by opcode_type into the OpCodeType variant its "
+                       "name states (value-set data-flow over the decoder; shift amounts and field masks agree; BooleanOperator "
+                       "to_u16/from are inverse); (c) 2-word opcodes are emitted, decoded, skipped by the evaluator and pushed by the "
+                       "parser as 2 words; (d) parser limits (depth, recency, length) are the evaluator's limits (same const items), "
+                       "and the end index of and/or/not is patched after the children are compiled.",
+        "not_decided": "the evaluator's short-circuit logic, break/fallthrough iteration, fork's trigger test, lossy tick "
+                       "compression numerics — these are functions of run-time values",
     },
 }
 
